@@ -141,3 +141,9 @@ package xstar
 //@   ensures result.Self == 1600 && result.Peer == 1600 && result.SelfName == "star" && result.PeerName == "star"
 //@
 // ---- end generated Info contracts ----
+
+// ---- RemovePipe: the pipe leaves the map and its close channel is closed (round 7b) ----
+//@ func (*socket).RemovePipe
+//@   before call:delete#1 assert arg0 == p.s.pipes && held(s.Mutex)
+//@   before call:close#1 assert arg0 == p.closeq
+//@   ensures called("delete")
